@@ -1022,7 +1022,7 @@ class Spec:
                                          mlines[:3], ENGINE))
             mout = mout + [""] * (len(cases) - len(mout))
         # where the strict head splitter gives no prediction, the composition "C02 scanners + C03 automaton" does
-        ood = [i for i, l in enumerate(mout) if "state=out-of-domain" in l]
+        ood = [i for i, l in enumerate(mout) if "state=out-of-domain" in l or cases[i].get("force_real")]
         if ood:
             rl = ["runreal %d %s %s" % (cases[i]["lvl"], ",".join(cases[i]["behs"]) if cases[i]["behs"] else "-",
                                         " ".join(hx(x) for x in cases[i]["segs"])) for i in ood]
@@ -1042,7 +1042,7 @@ class Spec:
                     return
                 continue
             o = parse_log(lines)
-            errs = oracle(c, o)
+            errs = oracle(c, o) if not c.get("no_oracle") else []
             hs = summary_from_obs(o)
             ms = summary_from_model(mout[i])
             stats["cases"] += 1
@@ -1147,6 +1147,57 @@ class Spec:
                          [head[:-1], head[-1:] + enc + tail]):
                 cases.append({"lvl": lvl, "mem": 4096, "behs": behs, "segs": [x for x in segs if x], "stream": stream,
                               "defect": "expect-100"})
+        return cases
+
+    def lenient_head_cases(self, ctx, n):
+        """heads outside the strict splitter's domain — bare LF line ends, folded field lines, whitespace before the colon,
+        a leading empty line, NUL / bare CR inside a value — at every level (accepted or refused depending on the level).
+        Compared with the composition "C02 scanners + C03 automaton" (driver op runreal); the strict reference framer
+        of the oracle does not judge such heads, so these cases are model/code comparisons only."""
+        rng = ctx.rng
+        cases = []
+        for i in range(n):
+            lvl = rng.choice(LEVELS)
+            r = gen_request(rng, lvl, None, rng.random() < 0.1)
+            r.ows = None
+            head = r.head()
+            lines = head[:-2].split(b"\r\n")[:-1]           # request line + field lines
+            rl, fl = lines[0], lines[1:]
+            kind = rng.choice(["bare-lf", "bare-lf-all", "fold", "wsp-before-colon", "leading-empty-line", "nul", "bare-cr"])
+            eols = [b"\r\n"] * (len(fl) + 2)
+            if kind == "bare-lf":
+                eols[rng.randrange(len(eols))] = b"\n"
+            elif kind == "bare-lf-all":
+                eols = [b"\n"] * len(eols)
+            elif kind == "fold":
+                fl.insert(rng.randint(0, len(fl)), b"X-Fold: a")
+                fl.insert(fl.index(b"X-Fold: a") + 1, rng.choice([b" b", b"\tb c", b"  "]))
+                eols = [b"\r\n"] * (len(fl) + 2)
+            elif kind == "wsp-before-colon":
+                fl.insert(rng.randint(0, len(fl)), rng.choice([b"X-W : v", b"X-W\t: v", b"X W: v"]))
+                eols = [b"\r\n"] * (len(fl) + 2)
+            elif kind == "nul":
+                fl.insert(rng.randint(0, len(fl)), b"X-N: a\x00b")
+                eols = [b"\r\n"] * (len(fl) + 2)
+            elif kind == "bare-cr":
+                fl.insert(rng.randint(0, len(fl)), b"X-C: a\rb")
+                eols = [b"\r\n"] * (len(fl) + 2)
+            pre = b"\r\n" if kind == "leading-empty-line" else b""
+            out = pre + rl + eols[0]
+            for j, l in enumerate(fl):
+                out += l + eols[1 + j]
+            out += eols[-1] if kind != "bare-lf" or rng.random() < 0.5 else b"\r\n"
+            stream = out + r.body_bytes + rng.choice([b"", b"GET /after HTTP/1.1\r\nHost: h\r\n\r\n"])
+            behs = ["c200", "c200"]
+            segl = [[stream]]
+            if len(stream) > 2:
+                k = rng.randint(1, len(stream) - 1)
+                segl.append([stream[:k], stream[k:]])
+            if len(stream) <= 300:
+                segl.append([stream[j:j + 1] for j in range(len(stream))])
+            for segs in segl:
+                cases.append({"lvl": lvl, "mem": 4096, "behs": behs, "segs": segs, "stream": stream, "defect": "lenient-" + kind,
+                              "no_oracle": True, "force_real": True})
         return cases
 
     def stale_buffer_cases(self, ctx, n):
@@ -1429,6 +1480,8 @@ class Spec:
         independent Python reference framer, on the strictly valid prefix of every distinct stream"""
         seen = {}
         for c in cases:
+            if c.get("no_oracle"):
+                continue            # heads outside the strict grammar: neither strict reference judges them
             seen.setdefault((c["lvl"], c["stream"]), c)
         keys = list(seen)
         mout, mrc, merr = run_driver(self.driver, ["ref %d %s" % (lvl, hx(st)) for lvl, st in keys])
@@ -1497,7 +1550,8 @@ class Spec:
         self.run_small(small, failures, stats) if small else None
         n_streams = (2500 if ctx.tier == "quick" else 15000) * (2 if boost else 1)
         cases = self.expect_cases(ctx, 150 if ctx.tier == "quick" else 1500) \
-            + self.stale_buffer_cases(ctx, 120 if ctx.tier == "quick" else 1200) + self.gen_cases(ctx, n_streams)
+            + self.stale_buffer_cases(ctx, 120 if ctx.tier == "quick" else 1200) \
+            + self.lenient_head_cases(ctx, 600 if ctx.tier == "quick" else 6000) + self.gen_cases(ctx, n_streams)
         B = 1500
         for i in range(0, len(cases), B):
             self.run_cases(cases[i:i + B], failures, stats)
